@@ -102,7 +102,7 @@ def case_st(draw):
     names = sorted(files)
     # the history is built against a model of the client state so that every event is effective, and (half of the
     # time) concentrates on a group of files that depend on each other
-    groups = [["ze_ext.f90", "ze_use.f90", "za_first.f90"], ["zs_par.f90", "zs_sub.f90"], ["zi_inc.f90", "zi_main.f90"], sorted(r.files),
+    groups = [["ze_ext.f90", "ze_use.f90", "za_first.f90"], ["zs_par.f90", "zs_sub.f90"], ["zi_inc.f90", "zi_main.f90"], ["zq_cfg.h", "zq_a.F90", "zq_b.F90"], sorted(r.files),
               sorted(r.files) + ["ze_ext.f90", "ze_use.f90"]]
     focus = draw(st.sampled_from([None, None, None] + groups))
     pool = (focus or names) + sorted(extra)
@@ -150,6 +150,12 @@ BUNDLE = {
     "ze_ext.f90": "module ze_base\n  implicit none\n  type :: ze_p\n    integer :: pc\n  contains\n    procedure :: pb => ze_impl\n  end type ze_p\ncontains\n  subroutine ze_impl(self)\n    class(ze_p), intent(inout) :: self\n    self%pc = 1\n  end subroutine ze_impl\nend module ze_base\n",
     "ze_use.f90": "module ze_child\n  use ze_base\n  implicit none\n  type, extends(ze_p) :: ze_c\n    integer :: cc\n  end type ze_c\n  type(ze_c) :: ze_obj\n  type(ze_p) :: ze_direct\ncontains\n  subroutine ze_go()\n    ze_obj%pc = ze_obj%cc\n    ze_direct%pc = 2\n    call ze_direct%pb()\n    call ze_obj%pb()\n    associate (zz => ze_obj%pc)\n      ze_obj%cc = zz\n    end associate\n  end subroutine ze_go\nend module ze_child\n",
 }
+# two preprocessed sources reach one header with different macro tables: what the header contributes depends on its includer
+BUNDLE["zq_cfg.h"] = "#ifndef ZQ_PREC\n#define ZQ_PREC 4\n#endif\n#ifdef ZQ_FAST\n#define ZQ_MODE 2\n#else\n#define ZQ_MODE 1\n#endif\n"
+BUNDLE["zq_a.F90"] = ("#define ZQ_PREC 8\n#define ZQ_FAST\n#include \"zq_cfg.h\"\nmodule zq_a\n  implicit none\n  real(ZQ_PREC) :: zq_xa\n  integer :: zq_ma(ZQ_MODE)\n"
+                      "#if ZQ_MODE == 2\n  integer :: zq_a_fast\n#else\n  integer :: zq_a_slow\n#endif\nend module zq_a\n")
+BUNDLE["zq_b.F90"] = ("#include \"zq_cfg.h\"\nmodule zq_b\n  implicit none\n  real(ZQ_PREC) :: zq_xb\n  integer :: zq_mb(ZQ_MODE)\n"
+                      "#if ZQ_MODE == 2\n  integer :: zq_b_fast\n#else\n  integer :: zq_b_slow\n#endif\nend module zq_b\n")
 BUNDLE["za_first.f90"] = ("module za_first\n  use ze_child\n  implicit none\ncontains\n  subroutine za_go()\n    associate (qq => ze_obj%pc)\n"
                           "      ze_obj%cc = qq\n    end associate\n    call ze_obj%pb()\n  end subroutine za_go\nend module za_first\n")
 BUNDLE_VARIANTS = {
@@ -162,6 +168,9 @@ BUNDLE_VARIANTS = {
     "ze_ext.f90": [BUNDLE["ze_ext.f90"].replace("integer :: pc", "integer :: pc\n    integer :: pd"), BUNDLE["ze_ext.f90"].replace("pb => ze_impl", "pq => ze_impl"),
                    BUNDLE["ze_ext.f90"].replace("ze_p", "ze_q"), BUNDLE["ze_ext.f90"].replace("integer :: pc", "real :: pc")],
     "ze_use.f90": [BUNDLE["ze_use.f90"].replace("extends(ze_p)", "extends(ze_missing)"), BUNDLE["ze_use.f90"].replace("zz => ze_obj%pc", "zz => ze_obj%cc")],
+    "zq_cfg.h": [BUNDLE["zq_cfg.h"].replace("ZQ_PREC 4", "ZQ_PREC 16"), BUNDLE["zq_cfg.h"].replace("ZQ_MODE 1", "ZQ_MODE 3")],
+    "zq_a.F90": [BUNDLE["zq_a.F90"].replace("#define ZQ_FAST\n", ""), BUNDLE["zq_a.F90"].replace("ZQ_PREC 8", "ZQ_PREC 2")],
+    "zq_b.F90": [BUNDLE["zq_b.F90"].replace("#include", "#define ZQ_FAST\n#include")],
     "za_first.f90": [BUNDLE["za_first.f90"].replace("qq => ze_obj%pc", "qq => ze_obj%cc"), BUNDLE["za_first.f90"].replace("use ze_child", "use ze_base")],
 }
 
@@ -195,7 +204,7 @@ def execute(case, scratch):
             fh.write(t)
     srv = Server(root=root, argv=fws.ARGV)
     buf = {}  # open documents: name -> client text
-    info = {"changed_dep": False, "deleted": False, "created": False, "effective_ops": 0, "queried": False}
+    info = {"changed_dep": False, "deleted": False, "created": False, "effective_ops": 0, "queried": False, "headers_touched": set()}
     P = lambda n: os.path.join(root, n)
 
     def version(n, v):
@@ -220,6 +229,8 @@ def execute(case, scratch):
                         srv.did_change(P(n), ch)
                         buf[n] = new
                         info["effective_ops"] += 1
+                        if n.endswith(".h"):
+                            info["headers_touched"].add(n)
                         if info["queried"] and n in case["variants"]:
                             info["changed_dep"] = True
             elif kind == "save":
@@ -244,6 +255,8 @@ def execute(case, scratch):
                     srv.did_close(P(n))
                     del buf[n]
                     info["deleted"] = True
+                    if n.endswith(".h"):
+                        info["headers_touched"].add(n)
                     info["effective_ops"] += 1
             elif kind == "create":
                 if n not in disk:
@@ -254,6 +267,8 @@ def execute(case, scratch):
                     srv.did_open(P(n))
                     buf[n] = t
                     info["created"] = True
+                    if n.endswith(".h"):
+                        info["headers_touched"].add(n)
                     info["effective_ops"] += 1
             elif kind == "disk":
                 if n in disk:
@@ -265,6 +280,8 @@ def execute(case, scratch):
                         buf[n] = t
                     srv.did_save(P(n))
                     info["effective_ops"] += 1
+                    if n.endswith(".h"):
+                        info["headers_touched"].add(n)
             elif kind == "query":
                 # populate caches: ask about everything currently on disk
                 battery.run(srv, root, disk, battery.positions(disk, per_file=12), heavy_every=3)
@@ -290,8 +307,20 @@ def execute(case, scratch):
         return [Disc(exc_signature(e, "C10-EXC"), f"{type(e).__name__}: {e}")], info
     discs = []
     seen = set()
+    # files that #include a header the history modified, deleted or re-created
+    includers = {n for n, t in list(disk.items()) + list(case["files"].items())
+                 if any(re.search(r'^\s*#\s*include\s*"%s"' % re.escape(h), t, re.M) for h in info["headers_touched"])}
     for sec, key, a, b in battery.diff(b_long, b_fresh):
         label = "history-dependent:" + sec
+        if includers and any(n in str(key) or n in json.dumps([a, b], default=str) for n in includers):
+            # fortls does not track which files #include a header: after the header changes, its includers keep the macro
+            # table of their last parse until they are parsed again themselves
+            label = "history-dependent:includer-of-a-modified-preprocessor-header-keeps-its-old-macros"
+            if label not in seen:
+                seen.add(label)
+                discs.append(Disc(label, f"{sec} {key}: long-lived server {json.dumps(a, default=str)[:200]} vs fresh server {json.dumps(b, default=str)[:200]}",
+                                  {"section": sec, "key": key}))
+            continue
         if sec == "indexed":
             label += ":" + ("deleted-file-still-indexed" if info["deleted"] else "file-set")
         elif sec in ("definition", "hover", "references", "completion"):
